@@ -675,7 +675,7 @@ def agg_field(stmt, name):
 # ---------------------------------------------------------------------------
 # Short-circuit boolean normalisation (DESIGN 3.9)
 
-def truth_table(body, atoms, max_steps=600):
+def truth_table(body, atoms, max_steps=600, target_bb=None, field_owner=None):
     """atoms: dict name -> block index of the call (or comparison) producing the atom's bool.
     Folds the CFG into a truth table of the returned bool.  A branch on a value that is
     neither an atom nor a constant is explored both ways (its outcome must not matter for a
@@ -683,17 +683,24 @@ def truth_table(body, atoms, max_steps=600):
     Returns (names, {assignment tuple (True/False/None = atom not evaluated) -> result})."""
     names = sorted(atoms)
     by_bb = {}
+    by_field = {}
     for n in names:
-        by_bb.setdefault(atoms[n], n)
+        if isinstance(atoms[n], tuple) and atoms[n][0] == 'field':
+            by_field[atoms[n][1]] = n
+        else:
+            by_bb.setdefault(atoms[n], n)
     from itertools import product
     table = {}
 
-    def run_from(bb, env, used, assign, steps, out, visits):
+    def run_from(bb, env, used, assign, steps, out, visits, hit=False):
         while steps < max_steps:
             steps += 1
+            if target_bb is not None and bb == target_bb:
+                out.add((True, frozenset(used)))
+                return
             visits[bb] = visits.get(bb, 0) + 1
             if visits[bb] > 3:
-                out.add(('loop', frozenset(used)))
+                out.add(((False if target_bb is not None else 'loop'), frozenset(used)))
                 return
             blk = body.blocks[bb]
             for s in blk['stmts']:
@@ -710,6 +717,11 @@ def truth_table(body, atoms, max_steps=600):
                         pl = op_place(rv['op'])
                         if pl is not None and not pl[1]:
                             v = env.get(pl[0], 'unknown')
+                        elif pl is not None and by_field:
+                            fs = [e for e in pl[1] if isinstance(e, list) and e[0] == 'F']
+                            if fs and fs[-1][2] in by_field and (field_owner is None or (len(fs[-1]) > 3 and fs[-1][3].endswith(field_owner))):
+                                v = assign[by_field[fs[-1][2]]]
+                                used = used | {by_field[fs[-1][2]]}
                 elif rv['k'] == 'un' and rv['op'] == 'Not':
                     l = op_local(rv['a'])
                     x = env.get(l, 'unknown') if l is not None else 'unknown'
@@ -721,7 +733,7 @@ def truth_table(body, atoms, max_steps=600):
             t = blk['term']
             k = t['k']
             if k == 'ret':
-                out.add((env.get(0, 'unknown'), frozenset(used)))
+                out.add(((hit if target_bb is not None else env.get(0, 'unknown')), frozenset(used)))
                 return
             if k == 'goto':
                 bb = t['t']
@@ -733,7 +745,7 @@ def truth_table(body, atoms, max_steps=600):
                     else:
                         env[t['dest'][0]] = 'unknown'
                 if t['ret'] is None:
-                    out.add(('diverges', frozenset(used)))
+                    out.add(((hit if target_bb is not None else 'diverges'), frozenset(used)))
                     return
                 bb = t['ret']
             elif k == 'switch':
@@ -746,7 +758,7 @@ def truth_table(body, atoms, max_steps=600):
                     for tgt in dict.fromkeys(t['tgts']):
                         if body.blocks[tgt]['term']['k'] == 'unreach':
                             continue
-                        run_from(tgt, dict(env), used, assign, steps, out, dict(visits))
+                        run_from(tgt, dict(env), used, assign, steps, out, dict(visits), hit)
                     return
             else:
                 out.add(('diverges', frozenset(used)))
